@@ -25,8 +25,10 @@ TIE = {
     'order': 81,
     'gen_dir': 'MalVerif/Py/GenModelSt',
     'gen_modules': MODULE_ORDER + ['Coh'],
-    'chain': ['MalVerif.Py.TieModelSt', 'MalVerif.PropsGen.C05_St'],
-    'needs': {'C05': ['MalVerif.Py.TieModelSt', 'MalVerif.PropsGen.C05_St']},
+    'chain': ['MalVerif.Py.TieModelStErr', 'MalVerif.Py.TieModelSt', 'MalVerif.Py.TieModelStPartial',
+              'MalVerif.PropsGen.C05_St'],
+    'needs': {'C05': ['MalVerif.Py.TieModelStErr', 'MalVerif.Py.TieModelSt', 'MalVerif.Py.TieModelStPartial',
+                      'MalVerif.PropsGen.C05_St']},
     'sources': {'C05': 'state-keeping emission (heap after an exception) of model.py: Model.add_asset, remove_attacker, '
                        'add_association, remove_association, remove_asset_from_association, remove_asset; '
                        'AttackerAttachment.remove_entry_point'},
